@@ -14,7 +14,7 @@ use std::time::Duration;
 
 pub static PROP: Prop = Prop {
     id: "C14",
-    rule: "cases: in a fresh child process per case, a chain of 1-4 handlers, each of one of 8 kinds {global function, prefix operator, infix operator, postfix operator, SETTER operator, context function called as f(...), context function reached by the bare name f, context function read as an assignment target (f = 1)}; every handler but the last re-enters the engine by executing a program that invokes the next handler; the last performs one of 10 re-entrant actions {parse_expression, execute with a fresh context (program using functions and all operator kinds), execute on the SAME context (read), execute on the same context (assignment), register_function, register_prefix_op, register_infix_op, register_postfix_op, lock the evaluating context's public handle and read it, get_variable/set_variable through a second handle}. Oracle (1, deterministic): the first thing every handler does is try_lock on all four registries, the descriptor store and the evaluating context: on this single-threaded evaluation every lock must be free; (2, behavioural): the action is really performed under a 10 s watchdog (normal: microseconds) and the outer evaluation must return the value computed by hand from the chain. The 8 x 10 single-handler matrix is enumerated exhaustively; chains are generated. Non-trivial: every case (each combines handler kinds with a re-entrant action); distinct by (kind chain, action).",
+    rule: "cases: in a fresh child process per case, a chain of 1-4 handlers, each of one of 12 kinds {global function, prefix operator, infix operator, postfix operator, SETTER operator, context function called as f(...), context function reached by the bare name f - alone, inside a list of names, as a map key, as a call argument, in a condition -, context function read as an assignment target (f = 1)}; every handler but the last re-enters the engine by executing a program that invokes the next handler; the last performs one of 11 re-entrant actions {registering the very function that the enclosing call is about to invoke, parse_expression, execute with a fresh context (program using functions and all operator kinds), execute on the SAME context (read), execute on the same context (assignment), register_function, register_prefix_op, register_infix_op, register_postfix_op, lock the evaluating context's public handle and read it, get_variable/set_variable through a second handle}. Oracle (1, deterministic): the first thing every handler does is try_lock on all four registries, the descriptor store and the evaluating context: on this single-threaded evaluation every lock must be free; (2, behavioural): the action is really performed under a 10 s watchdog (normal: microseconds) and the outer evaluation must return the value computed by hand from the chain. The 12 x 11 single-handler matrix is enumerated exhaustively; chains are generated. Non-trivial: every case (each combines handler kinds with a re-entrant action); distinct by (kind chain, action).",
     assumptions: &[
         "a watchdog expiry must reproduce on two more runs to count as a deadlock; the try_lock probe gives the precise lock",
         "lock state of the registries is read through the cfg-guarded locks_free() hook",
@@ -37,8 +37,12 @@ fn budget(t: Tier) -> Budget {
     }
 }
 
-pub const KINDS: [&str; 8] = ["global-function", "prefix-op", "infix-op", "postfix-op", "setter-op", "ctx-function-call", "ctx-function-bare", "ctx-function-assign-target"];
-pub const ACTIONS: [&str; 10] = [
+pub const KINDS: [&str; 12] = [
+    "global-function", "prefix-op", "infix-op", "postfix-op", "setter-op", "ctx-function-call", "ctx-function-bare", "ctx-function-assign-target",
+    "ctx-function-bare-in-list", "ctx-function-bare-in-map", "ctx-function-bare-as-argument", "ctx-function-bare-in-condition",
+];
+pub const ACTIONS: [&str; 11] = [
+    "register-callee",
     "parse", "execute-fresh", "execute-same-context-read", "execute-same-context-assign", "register-function", "register-prefix", "register-infix", "register-postfix",
     "lock-context-handle", "second-handle-get-set",
 ];
@@ -68,15 +72,22 @@ fn program_for(kind: &str, level: usize) -> String {
         // the same name at every level: each level has its own context
         "ctx-function-call" => "cf(1) + 1".to_string(),
         "ctx-function-bare" => "cf + 1".to_string(),
+        // the bare name in positions that an implementation might resolve in bulk
+        "ctx-function-bare-in-list" => "[v0 , cf , v0]".to_string(),
+        "ctx-function-bare-in-map" => "{cf : v0}".to_string(),
+        "ctx-function-bare-as-argument" => "min(cf , 99)".to_string(),
+        "ctx-function-bare-in-condition" => "cf == 10 ? 11 : 0".to_string(),
         _ => "cf = 1".to_string(),
     }
 }
 
 fn expected_for(kind: &str) -> &'static str {
-    if kind == "ctx-function-assign-target" || kind == "setter-op" {
-        "none"
-    } else {
-        "n11"
+    match kind {
+        "ctx-function-assign-target" | "setter-op" => "none",
+        "ctx-function-bare-in-list" => "[n5,n10,n5]",
+        "ctx-function-bare-in-map" => "{n10=>n5}",
+        "ctx-function-bare-as-argument" => "n10",
+        _ => "n11",
     }
 }
 
@@ -99,7 +110,11 @@ fn run_level(level: usize, plan: &Plan) -> Result<String, String> {
         }
         c[level] = Some(share(&ctx));
     }
-    let text = program_for(kind, level);
+    let mut text = program_for(kind, level);
+    if level == 0 && kind == "global-function" && plan.action == "register-callee" {
+        // `vh_late` does not exist yet: the handler of its argument registers it
+        text = "vh_late(vh_c0(1)) + 1".to_string();
+    }
     match execute(&text, ctx) {
         Ok(v) => Ok(V::from_value(&v).key()),
         Err(e) => Err(e.to_string()),
@@ -135,6 +150,16 @@ fn body(level: usize) -> expression_engine::Result<Value> {
             "execute-same-context-assign" => {
                 let r = execute("v1 = v0 * 2 ; v1", share(&my_ctx)).map(|v| V::from_value(&v).key()).map_err(|e| e.to_string());
                 say(&format!("action-result {:?}", r));
+            }
+            "register-callee" => {
+                register_function(
+                    "vh_late",
+                    Arc::new(|args| {
+                        let x = args.into_iter().next().unwrap_or(Value::None).decimal()?;
+                        Ok(Value::from(x + rust_decimal::Decimal::from(100)))
+                    }),
+                );
+                say("action-result registered");
             }
             "register-function" => {
                 register_function("vh_new", Arc::new(|_| Ok(Value::from(1))));
@@ -211,7 +236,7 @@ pub fn worker() -> i32 {
     0
 }
 
-fn run_case(chain: &[&str], action: &str, env: &Env, st: &mut Stats) -> CaseResult {
+pub fn run_case(chain: &[&str], action: &str, env: &Env, st: &mut Stats) -> CaseResult {
     let scenario = json!({"chain": chain, "action": action});
     let key = format!("{}>{}", chain.join(">"), action);
     st.eval();
@@ -253,7 +278,11 @@ fn run_case(chain: &[&str], action: &str, env: &Env, st: &mut Stats) -> CaseResu
         match out.end {
             ChildEnd::Exit(0) if out.stdout.contains("\ndone") || out.stdout.starts_with("done") => {
                 let result = out.stdout.lines().find(|l| l.starts_with("result")).unwrap_or("result ?");
-                let want = format!("result {}", expected_for(chain[0]));
+                let want = if chain[0] == "global-function" && action == "register-callee" {
+                    "result n111".to_string()
+                } else {
+                    format!("result {}", expected_for(chain[0]))
+                };
                 if result != want {
                     return Err(Failure::new(
                         format!("wrong-result:{}:{}", chain[0], action),
